@@ -1,7 +1,7 @@
 (** C03 correspondence: Model/WriteSet.v against recorded runs of a real overlaydb.OverlayDB
     (over goleveldb's in-memory storage): GetWriteSet().ForEach output and ChangeHash, the latter
     re-computed with the Gallina SHA-256 of Lib/Sha256.v. *)
-From Coq Require Import List Bool NArith ZArith Uint63.
+From Coq Require Import List Bool NArith.
 Import ListNotations.
 From Coq Require Export PrimInt63.
 From Ont Require Export Lib.Bytes Lib.CorrLib Lib.Sha256 Model.WriteSet.
@@ -12,12 +12,28 @@ Open Scope bool_scope.
     character to parse and type-check; a primitive integer literal is one node): [pk lastn chunks]
     is the concatenation of the chunks, each a little-endian packing of 7 bytes into a primitive
     63-bit integer, except the last one which packs [lastn] (1..7) bytes. *)
+Definition bit_at (x : int) (i : int) : bool :=
+  negb (PrimInt63.eqb (PrimInt63.land (PrimInt63.lsr x i) 1%uint63) 0%uint63).
+Definition push_bit (b : bool) (acc : N) : N := if b then N.succ_double acc else N.double acc.
+(** the low byte of [x] *)
+Definition byte_lo (x : int) : N :=
+  push_bit (bit_at x 0%uint63) (push_bit (bit_at x 1%uint63) (push_bit (bit_at x 2%uint63)
+  (push_bit (bit_at x 3%uint63) (push_bit (bit_at x 4%uint63) (push_bit (bit_at x 5%uint63)
+  (push_bit (bit_at x 6%uint63) (push_bit (bit_at x 7%uint63) 0))))))).
+Fixpoint unpack_chunk (n : nat) (x : int) : bytes :=
+  match n with
+  | O => []
+  | S n' => byte_lo x :: unpack_chunk n' (PrimInt63.lsr x 8%uint63)
+  end.
 Fixpoint pk (lastn : nat) (chunks : list int) : bytes :=
   match chunks with
   | [] => []
-  | [x] => le_encode lastn (Z.to_N (Uint63.to_Z x))
-  | x :: r => le_encode 7 (Z.to_N (Uint63.to_Z x)) ++ pk lastn r
+  | [x] => unpack_chunk lastn x
+  | x :: r => unpack_chunk 7 x ++ pk lastn r
   end.
+
+Example pk_example : pk 2 [1976943448883713%uint63; 2313%uint63] = [1; 2; 3; 4; 5; 6; 7; 9; 9].
+Proof. vm_compute. reflexivity. Qed.
 
 Definition kv_eqb (a b : kv) : bool := bytes_eqb (fst a) (fst b) && bytes_eqb (snd a) (snd b).
 Definition ws_eqb : list kv -> list kv -> bool := list_eqb kv_eqb.
